@@ -163,9 +163,7 @@ def dtor(ctx, db):
             ds = all_indices(tr, lambda ev: ev.k == 'call' and norm(ev.get('callee')) == 'std::coroutine_handle::destroy')
             held = None
             for i, it in enumerate(tr):
-                if it.k == 'branch' and 'coroutine_handle::operator bool' in (it.path or ''):
-                    held = it.val
-                n0 = nullness(it) if it.k == 'branch' else None
+                n0 = null_test(tr, i) if it.k == 'branch' else None
                 if n0 and n0[0] == 'this->_h':
                     held = n0[1]
             if held is True:
@@ -188,6 +186,10 @@ def bound_writers(ctx, db):
         for f in db.need(name)[:1]:
             ss = [e for e in f.events() if e.k == 'call' and norm(e.get('callee')) in shared.SET]
             ok = len(ss) == 1 and norm(ss[0].get('lfield') or ss[0].get('field') or '') == shared.FUT
+            if len(ss) == 1 and not ok:
+                # through a local copy of the pointer: future<T> *f = _future; if (f) f->set(...)
+                o = value_origin(f, f.ev(ss[0]['recv_ev'])) if ss[0].get('recv_ev') is not None and f.ev(ss[0]['recv_ev']) is not None else value_origin(f, ss[0].get('recv'))
+                ok = o is not None and o.k == 'read' and norm(o.get('lfield') or o.get('field') or '') == shared.FUT
             ctx.ob(rid, f, f['key'], ok, '%s stores into the bound future only' % name.split('::')[-1], desc='%s does not store into _future exactly once' % name)
 
 
@@ -214,13 +216,9 @@ def refused_start_empty(ctx, db):
                 if it.k == 'decl' and (it.get('init') or '') in names and it.get('depth', 0) == 0:
                     names.add(it.get('var'))
                 if it.k == 'branch' and it.get('depth', 0) == 0 and tested is None:
-                    ce = cond_event(tr, i)
-                    if ce is not None and ce.k == 'call' and 'operator bool' in (ce.get('callee') or '') and (ce.get('recv') or '') in names:
-                        tested = bool(it.val)
-                    else:
-                        nn = nullness(it)
-                        if nn and nn[0] in names:
-                            tested = nn[1]
+                    nn = null_test(tr, i)
+                    if nn and nn[0] in names:
+                        tested = nn[1]
             cons = [c for c in calls(tr) if c.k == 'construct' and 'suspend_point' in (c.get('type') or '') and c.get('depth', 0) == 0 and not c.get('copy_or_move')]
             withh = [c for c in cons if any(re.sub(r'^(ctor|move|forward)\((.*)\)$', r'\2', a.get('path') or '') in names for a in c.get('args', []))]
             if withh:
